@@ -17,6 +17,7 @@ import (
 	"github.com/AdguardTeam/AdGuardDNS/internal/filter/internal"
 	"github.com/AdguardTeam/AdGuardDNS/internal/filter/internal/refreshable"
 	"github.com/AdguardTeam/AdGuardDNS/internal/metrics"
+	"github.com/AdguardTeam/AdGuardDNS/internal/verifhook"
 	"github.com/AdguardTeam/golibs/netutil"
 	"github.com/c2h5oh/datasize"
 	"github.com/miekg/dns"
@@ -196,6 +197,8 @@ func (f *Filter) FilterRequest(
 			break
 		}
 	}
+
+	verifhook.Hit("hashprefix.afterMatch")
 
 	if matched == "" {
 		f.resCache.Set(cacheKey, &cacheItem{
